@@ -37,3 +37,4 @@ def run(ctx):
     import r_round
     ctx.run_rule("K4c", r_round.rule_K4_c)
     ctx.run_rule("K4r", r_round.rule_K4_rust, ["pure-full"])
+    ctx.run_rule("F8r", r_round.rule_F8_rust, ["pure-full", "asm-full", "portable1"])
